@@ -16,7 +16,12 @@ pub(crate) use quantity_arg;
 
 macro_rules! scalar_arg {
     ($args:ident) => {
-        quantity_arg!($args).as_scalar().unwrap()
+        // The type checker guarantees a dimensionless argument, except for the (dimension-
+        // polymorphic) literals `inf` and `NaN`, which can carry a unit at run time: report
+        // that as an error instead of panicking.
+        quantity_arg!($args)
+            .as_scalar()
+            .map_err(|e| Box::new(RuntimeErrorKind::QuantityError(e)))?
     };
 }
 pub(crate) use scalar_arg;
